@@ -458,6 +458,8 @@ def harnesses():
         'vhdx-flip': R.Harness('vhdx-flip', scen_vhdx, load_sym_flip,
                                load_real),
     }
+    H['cli'] = R.Harness('cli', scen_cli, load_sym_cli, load_real_cli)
+    H['cli'].required_goals = ('exit0', 'nonzero')
     H['vmdk-text'] = R.Harness('vmdk-text', scen_vmdk_text, load_sym,
                                load_real)
     H['vmdk-text'].required_goals = ('text-mode',)
@@ -1361,3 +1363,135 @@ def scen_vmdk_text(ctx, M):
     ctx.check('C07-text-size-zero', h.veq(oa[2], 0))
     ctx.goal('text-mode')
     return (ea, eb) + tuple(oa) + tuple(ob)
+
+
+# ---------------------------------------------------------------- C02 CLI
+CLI = 'oslo_utils.imageutils.cli'
+
+
+def load_sym_cli():
+    ld = env.Loader(sym=[FI])
+    m = Mods()
+    m.fi = ld.load(FI)
+    env.deterministic_hashes(m.fi, HASHED, False)
+    m.cli = ld.load(CLI)
+    m.sha = ld.sha
+    m.loader = ld
+    return m
+
+
+def load_real_cli():
+    m = Mods()
+    m.fi = env.import_real(FI)
+    m.cli = env.import_real(CLI)
+    return m
+
+
+def scen_cli(ctx, M):
+    """cli.main() over a symbolic file: exit status 0 only if detection
+    named a format whose signature is present (alone) and that format's
+    reference safety verdict is 'safe'; anything else is a non-zero exit"""
+    fi, cli = M.fi, M.cli
+    p = ctx.p
+    mname, magic = ctx.choice('magic0', [x for x in MAGICS0 if p.get(
+        'magic') in (None, x[0])])
+    fixed = {i: b for i, b in enumerate(magic)}
+    if mname == 'qcow2':
+        fixed[7] = ctx.choice('qver', [3, 2, 4])
+        fixed[79] = ctx.choice('qfeat', [0, 4, 16])
+        fixed[15] = ctx.choice('qbf', [0, 1])
+    if mname == 'luks':
+        fixed[7] = ctx.choice('lver', [1, 2])
+    overlay(ctx, fixed)
+    if fixed.get(510) == 0x55 and ctx.choice('part', [False, True]):
+        fixed[446] = 0x80
+        fixed[446 + 4] = 0x83
+    N = pick_n(ctx)
+    S = ctx.stream('S', N, fixed=fixed, default=0)
+    exists = ctx.choice('exists', [True, False]) if p.get('missing') \
+        else True
+    pos = [0]
+
+    class F_:
+        def read(self, size):
+            a = pos[0]
+            b = h.vmin(a + size, N)
+            if ctx.truth(b > a):
+                pos[0] = b
+                return S.slice(a, b)
+            return S.slice(a, a)
+
+        def close(self):
+            pass
+
+        def __enter__(self):
+            return self
+
+        def __exit__(self, *a):
+            return False
+
+    def fake_open(name, mode='r'):
+        return F_()
+
+    import unittest.mock as mock
+    import os.path as _p
+    import sys as _sys
+    argv = ['prog', '-i', '/img'] + (['-v'] if p.get('verbose') else [])
+    if ctx.sym:
+        M.loader.builtins['open'] = fake_open
+        M.loader.builtins['print'] = lambda *a, **k: None
+    try:
+        with mock.patch.object(_sys, 'argv', argv), \
+                mock.patch.object(_p, 'exists', lambda x: exists), \
+                mock.patch.object(_p, 'isfile', lambda x: exists), \
+                mock.patch('builtins.print', lambda *a, **k: None), \
+                (mock.patch('builtins.open', fake_open) if not ctx.sym
+                 else mock.patch.object(_sys, 'argv', argv)):
+            try:
+                cli.main()
+                code = 'returned'
+            except SystemExit as e:
+                code = e.code
+            except Exception as e:
+                code = 'EXC:' + type(e).__name__
+    finally:
+        if ctx.sym:
+            import builtins
+            M.loader.builtins['open'] = builtins.open
+            M.loader.builtins['print'] = builtins.print
+    if not exists:
+        ctx.check('C02-cli-missing-file-nonzero', code == 1)
+        ctx.goal('missing')
+        return (str(code),)
+    present = {n: sig_present(S, n) for n in NONRAW}
+    npresent = count_true(present.values())
+    if code == 0:
+        ctx.goal('exit0')
+        # which format was it?  exactly one signature, or none (raw)
+        ctx.check('C02-cli-exit0-needs-unique-detection', npresent <= 1)
+        for n in NONRAW:
+            if n in ('vhdx', 'vmdk'):
+                ctx.check('C02-cli-exit0-%s-not-in-family' % n,
+                          NOT(present[n]))
+                continue
+            fails = F.REFS[n].failing(S)
+            unsafe = OR(*fails.values()) if fails else False
+            ctx.check('C02-cli-exit0-implies-safe-%s' % n,
+                      NOT(AND(present[n], unsafe)))
+    else:
+        ctx.goal('nonzero')
+        ctx.check('C02-cli-exit-status', code == 1 or
+                  str(code).startswith('EXC:'))
+        # a clean, uniquely detected image must be accepted
+        if code == 1:
+            clean = []
+            for n in NONRAW:
+                if n in ('vhdx', 'vmdk', 'qed'):
+                    continue
+                fails = F.REFS[n].failing(S)
+                unsafe = OR(*fails.values()) if fails else False
+                clean.append(AND(present[n], NOT(unsafe),
+                                 F.REFS[n].complete(S)))
+            ctx.check('C02-cli-clean-image-accepted',
+                      NOT(AND(npresent == 1, OR(*clean))))
+    return (str(code),)
